@@ -138,7 +138,8 @@ def r1_null_rows_after_gates(ctx):
     ctx.expect_count('R1', 'stage loop', len(loops), 1)
     lp = loops[0]
     inner = [s for s in lp.body if isinstance(s, ast.For)]
-    tests = [s for s in lp.body if isinstance(s, ast.If) and 'nullish_tokens' in src(s.test)]
+    # the test that decides whether the finished row is kept: the `if` that guards rows.append(...)
+    tests = [s for s in lp.body if isinstance(s, ast.If) and any(isinstance(x, ast.Call) and src(x.func) == 'rows.append' for b_ in s.body for x in ast.walk(b_))]
     ok = len(inner) == 1 and len(tests) == 1 and lp.body.index(tests[0]) > lp.body.index(inner[0])
     reads = {a.attr for a in ast.walk(tests[0]) if isinstance(a, ast.Attribute) and F.is_name(a.value, 'options')} if tests else set()
     ctx.check(ok and not reads, 'R1', f'{es.module.relpath}:{lp.lineno}', es.qualname, 'null-rows-after-gates',
